@@ -148,8 +148,9 @@ Definition check_cvsid (k : idkind) (ls : list str) : option (list str) :=
        (ReplaceAfter: only if it occurs exactly once in the line; checkPath goes on with
         the OLD rel, so checkPathMan is not reached for this line in this pass)
      - first path component man: checkPathMan                   -> ReplaceAt(0, len-3, ".gz", "")
+     - @unexec rmdir … / @unexec ${RMDIR} %D/… without "true"  -> Delete
    Not modelled (kept out of the corresponded domain): duplicate deletion, the sorter,
-   @unexec rmdir deletion, the egg-info rewrite. ---------- *)
+   the egg-info rewrite. ---------- *)
 Definition is_word (c : N) : bool := is_alnum c || (c =? 95).
 Definition is_cond_char (c : N) : bool := is_word c || (c =? 45) || (c =? 46).
 Definition plist_cond_open : str := [36;123;80;76;73;83;84;46].           (* ${PLIST. *)
@@ -224,6 +225,34 @@ Definition ends_gz (s : str) : bool :=
   match rev s with 122 :: 103 :: 46 :: _ => true | _ => false end.
 Definition drop_last3 (s : str) : str := firstn (length s - 3) s.
 
+(* PlistLine.CheckDirective, as far as the file is changed: ^@([a-z-]+)[\t ]*(.+)?  with cmd = unexec and
+   arg =~ ^(?:rmdir|\$\{RMDIR\} %D/)(.+)?  whose rest contains neither "true" nor "${TRUE}" -> Delete *)
+Definition is_lower_dash (c : N) : bool := is_lower c || (c =? 45).
+Fixpoint contains_sub (pat s : str) : bool :=
+  match strip_prefix pat s with
+  | Some _ => true
+  | None => match s with [] => false | _ :: t => contains_sub pat t end
+  end.
+Definition unexec_rmdir (text : str) : bool :=
+  match text with
+  | c :: t =>
+    if c =? 64 then
+      let (cmd, rest) := span is_lower_dash t in
+      if str_eqb cmd [117;110;101;120;101;99] then
+        let arg := snd (span is_hspace rest) in
+        let dir := match strip_prefix [114;109;100;105;114] arg with
+                   | Some d => Some d
+                   | None => strip_prefix [36;123;82;77;68;73;82;125;32;37;68;47] arg
+                   end in
+        match dir with
+        | None => false
+        | Some d => negb (contains_sub [116;114;117;101] d) && negb (contains_sub [36;123;84;82;85;69;125] d)
+        end
+      else false
+    else false
+  | [] => false
+  end.
+
 Inductive lres := LKeep (l : str) | LDelete | LFuel.
 Definition plist_line_fix (raw : str) : lres :=
   match strip_conds raw with
@@ -238,7 +267,7 @@ Definition plist_line_fix (raw : str) : lres :=
         else if str_eqb (first_part text) [109;97;110] then
           LKeep (if gz_text text && ends_gz raw then drop_last3 raw else raw)
         else LKeep raw
-      else LKeep raw
+      else if unexec_rmdir text then LDelete else LKeep raw
     end
   end.
 (* which fix is offered for a line (for the statements) *)
